@@ -483,4 +483,10 @@ def rule_r4(ctx):
     return rr
 
 
-RULES = [("C04-R1", rule_r1), ("C04-R2", rule_r2), ("C04-R3", rule_r3), ("C04-R4", rule_r4)]
+def _driver(ctx):
+    from .c03 import rule_r7
+
+    return rule_r7(ctx)
+
+
+RULES = [("C03-R7", _driver), ("C04-R1", rule_r1), ("C04-R2", rule_r2), ("C04-R3", rule_r3), ("C04-R4", rule_r4)]
